@@ -5,12 +5,15 @@
 use std::panic::{catch_unwind, AssertUnwindSafe};
 use std::time::Duration;
 
-use rodbus::client::{Channel, RequestParam, WriteMultiple};
+#[allow(deprecated)]
+use rodbus::client::CallbackSession;
+use rodbus::client::{Channel, FfiChannel, FfiChannelError, RequestParam, WriteMultiple};
 use rodbus::verif::{ClientSession, Framing};
 use rodbus::{
-    AddressRange, AduParseError, AppDecodeLevel, DecodeLevel, FrameDecodeLevel, Indexed,
-    InternalError, InvalidRange, InvalidRequest, PhysDecodeLevel, RequestError, UnitId,
+    AddressRange, AduParseError, AppDecodeLevel, BitIterator, DecodeLevel, FrameDecodeLevel, Indexed,
+    InternalError, InvalidRange, InvalidRequest, PhysDecodeLevel, RegisterIterator, RequestError, UnitId,
 };
+use tokio::sync::oneshot;
 use tokio::task::JoinHandle;
 
 use crate::wire::Wire;
@@ -81,10 +84,40 @@ pub enum Values {
     List(Vec<u16>),
 }
 
+/// how the request is handed to the client task
+#[derive(Clone, Copy, Debug, PartialEq, Eq)]
+pub enum Style {
+    /// the async methods of `Channel` (no suffix)
+    Channel,
+    /// the deprecated `CallbackSession` (suffix `c`)
+    Callback,
+    /// `FfiChannel`, synchronous try_send (suffix `x`)
+    Ffi,
+}
+
+/// what the inbound stream does once the raw chunks have been consumed
+#[derive(Clone, Copy, Debug, PartialEq, Eq)]
+pub enum RawEnd {
+    /// stays pending (the request ends with ResponseTimeout)
+    Pending,
+    /// `/Z`: end of stream
+    Eof,
+    /// `/E`: read error ConnectionReset
+    Error,
+}
+
+/// `raw:<hex>(+<hex>)*[/Z|/E]`: the inbound bytes verbatim, chunk by chunk, instead of a reply ADU
+#[derive(Clone, Debug)]
+pub struct RawScript {
+    pub chunks: Vec<Vec<u8>>,
+    pub end: RawEnd,
+}
+
 #[derive(Clone, Debug)]
 pub struct Case {
     pub framing: Framing,
     pub rtu: bool,
+    pub style: Style,
     /// Modbus function number 1,2,3,4,5,6,15,16
     pub kind: u8,
     /// kinds 1..4: build the range as a struct literal, bypassing `AddressRange::try_from`
@@ -95,6 +128,8 @@ pub struct Case {
     pub values: Values,
     /// reply PDU (cresp only)
     pub pdu: Vec<u8>,
+    /// raw inbound script given instead of a reply PDU (cresp only)
+    pub raw: Option<RawScript>,
 }
 
 pub fn parse_case(line: &str, with_pdu: bool) -> Result<Case, String> {
@@ -103,10 +138,17 @@ pub fn parse_case(line: &str, with_pdu: bool) -> Result<Case, String> {
     if p.len() != want {
         return Err(format!("expected {want} fields, got {}", p.len()));
     }
-    let (framing, rtu) = match p[0] {
-        "T" => (Framing::Tcp, false),
-        "R" => (Framing::RtuResponse, true),
-        x => return Err(format!("bad framing {x:?}")),
+    let mut fchars = p[0].chars();
+    let (framing, rtu) = match fchars.next() {
+        Some('T') => (Framing::Tcp, false),
+        Some('R') => (Framing::RtuResponse, true),
+        _ => return Err(format!("bad framing {:?}", p[0])),
+    };
+    let style = match fchars.as_str() {
+        "" => Style::Channel,
+        "c" => Style::Callback,
+        "x" => Style::Ffi,
+        _ => return Err(format!("bad framing / submit style {:?}", p[0])),
     };
     let (kstr, raw_range) = match p[1].strip_suffix('r') {
         Some(k) => (k, true),
@@ -160,16 +202,40 @@ pub fn parse_case(line: &str, with_pdu: bool) -> Result<Case, String> {
             }
         }
     }
-    let pdu = if with_pdu {
+    let mut raw = None;
+    let pdu = if !with_pdu {
+        Vec::new()
+    } else if let Some(script) = p[6].strip_prefix("raw:") {
+        raw = Some(parse_raw(script)?);
+        Vec::new()
+    } else {
         let s = p[6];
         if s != "-" && (s.len() % 2 != 0 || !s.bytes().all(|b| b.is_ascii_hexdigit())) {
             return Err(format!("bad pdu hex {s:?}"));
         }
         crate::util::unhex(s)
-    } else {
-        Vec::new()
     };
-    Ok(Case { framing, rtu, kind, raw_range, unit, start, c, values, pdu })
+    Ok(Case { framing, rtu, style, kind, raw_range, unit, start, c, values, pdu, raw })
+}
+
+fn parse_raw(script: &str) -> Result<RawScript, String> {
+    let (body, end) = if let Some(b) = script.strip_suffix("/Z") {
+        (b, RawEnd::Eof)
+    } else if let Some(b) = script.strip_suffix("/E") {
+        (b, RawEnd::Error)
+    } else {
+        (script, RawEnd::Pending)
+    };
+    let mut chunks = Vec::new();
+    if !body.is_empty() {
+        for c in body.split('+') {
+            if c.is_empty() || c.len() % 2 != 0 || !c.bytes().all(|b| b.is_ascii_hexdigit()) {
+                return Err(format!("bad raw chunk {c:?}"));
+            }
+            chunks.push(crate::util::unhex(c));
+        }
+    }
+    Ok(RawScript { chunks, end })
 }
 
 fn seed_u16(seed: u64, n: u64) -> Vec<u16> {
@@ -270,21 +336,152 @@ pub fn param(case: &Case) -> RequestParam {
     RequestParam::new(UnitId::new(case.unit), Duration::from_secs(1))
 }
 
-/// run the request future as its own task, so that the caller can drive the wire concurrently and a
-/// panic on the caller side of the channel is reported through the JoinError
-pub fn submit(channel: Channel, param: RequestParam, p: Prepared) -> JoinHandle<Result<Outcome, RequestError>> {
-    tokio::spawn(async move {
-        match p {
-            Prepared::ReadCoils(r) => channel.read_coils(param, r).await.map(Outcome::Bits),
-            Prepared::ReadDiscreteInputs(r) => channel.read_discrete_inputs(param, r).await.map(Outcome::Bits),
-            Prepared::ReadHoldingRegisters(r) => channel.read_holding_registers(param, r).await.map(Outcome::Regs),
-            Prepared::ReadInputRegisters(r) => channel.read_input_registers(param, r).await.map(Outcome::Regs),
-            Prepared::WriteSingleCoil(x) => channel.write_single_coil(param, x).await.map(Outcome::Coil),
-            Prepared::WriteSingleRegister(x) => channel.write_single_register(param, x).await.map(Outcome::Reg),
-            Prepared::WriteMultipleCoils(x) => channel.write_multiple_coils(param, x).await.map(Outcome::Range),
-            Prepared::WriteMultipleRegisters(x) => channel.write_multiple_registers(param, x).await.map(Outcome::Range),
+/// what a submitted request ended with
+pub enum Done {
+    /// the request future resolved with / the callback was invoked with this
+    Result(Result<Outcome, RequestError>),
+    /// style x only: the synchronous call failed with this (flat) error; the second field is what the
+    /// callback received, `None` if it was not invoked (dropped uncalled, or not called within 50 yields)
+    SyncErr(&'static str, Option<Result<Outcome, RequestError>>),
+    /// styles c / x: the request was accepted but the callback was dropped without being invoked
+    Lost,
+    /// styles c / x: the callback was neither invoked nor dropped within 3 s of virtual time
+    Hung,
+}
+
+type CbResult = Result<Outcome, RequestError>;
+
+fn bits_cb(tx: oneshot::Sender<CbResult>) -> impl FnOnce(Result<BitIterator, RequestError>) + Send + Sync + 'static {
+    move |r| {
+        // through Iterator::next
+        let _ = tx.send(r.map(|it| Outcome::Bits(it.collect::<Vec<_>>())));
+    }
+}
+
+fn regs_cb(tx: oneshot::Sender<CbResult>) -> impl FnOnce(Result<RegisterIterator, RequestError>) + Send + Sync + 'static {
+    move |r| {
+        let _ = tx.send(r.map(|it| Outcome::Regs(it.collect::<Vec<_>>())));
+    }
+}
+
+fn val_cb<T: Send + 'static>(
+    tx: oneshot::Sender<CbResult>,
+    wrap: fn(T) -> Outcome,
+) -> impl FnOnce(Result<T, RequestError>) + Send + Sync + 'static {
+    move |r| {
+        let _ = tx.send(r.map(wrap));
+    }
+}
+
+pub fn ffi_err(e: FfiChannelError) -> &'static str {
+    match e {
+        FfiChannelError::ChannelFull => "ChannelFull",
+        FfiChannelError::ChannelClosed => "ChannelClosed",
+        FfiChannelError::BadRange(x) => range_err(x),
+    }
+}
+
+/// the request was accepted: wait for the callback (the paused clock auto-advances to the response
+/// timeout of the request, 1 s, if no reply is delivered)
+async fn await_callback(rx: oneshot::Receiver<CbResult>) -> Done {
+    match tokio::time::timeout(Duration::from_secs(3), rx).await {
+        Ok(Ok(r)) => Done::Result(r),
+        Ok(Err(_)) => Done::Lost,
+        Err(_) => Done::Hung,
+    }
+}
+
+async fn submit_channel(channel: Channel, param: RequestParam, p: Prepared) -> Result<Outcome, RequestError> {
+    match p {
+        Prepared::ReadCoils(r) => channel.read_coils(param, r).await.map(Outcome::Bits),
+        Prepared::ReadDiscreteInputs(r) => channel.read_discrete_inputs(param, r).await.map(Outcome::Bits),
+        Prepared::ReadHoldingRegisters(r) => channel.read_holding_registers(param, r).await.map(Outcome::Regs),
+        Prepared::ReadInputRegisters(r) => channel.read_input_registers(param, r).await.map(Outcome::Regs),
+        Prepared::WriteSingleCoil(x) => channel.write_single_coil(param, x).await.map(Outcome::Coil),
+        Prepared::WriteSingleRegister(x) => channel.write_single_register(param, x).await.map(Outcome::Reg),
+        Prepared::WriteMultipleCoils(x) => channel.write_multiple_coils(param, x).await.map(Outcome::Range),
+        Prepared::WriteMultipleRegisters(x) => channel.write_multiple_registers(param, x).await.map(Outcome::Range),
+    }
+}
+
+#[allow(deprecated)]
+async fn submit_callback(channel: Channel, param: RequestParam, p: Prepared) -> Done {
+    let (tx, rx) = oneshot::channel::<CbResult>();
+    let mut cs = CallbackSession::new(channel, param);
+    match p {
+        Prepared::ReadCoils(r) => cs.read_coils(r, bits_cb(tx)).await,
+        Prepared::ReadDiscreteInputs(r) => cs.read_discrete_inputs(r, bits_cb(tx)).await,
+        Prepared::ReadHoldingRegisters(r) => cs.read_holding_registers(r, regs_cb(tx)).await,
+        Prepared::ReadInputRegisters(r) => cs.read_input_registers(r, regs_cb(tx)).await,
+        Prepared::WriteSingleCoil(x) => cs.write_single_coil(x, val_cb(tx, Outcome::Coil)).await,
+        Prepared::WriteSingleRegister(x) => cs.write_single_register(x, val_cb(tx, Outcome::Reg)).await,
+        Prepared::WriteMultipleCoils(x) => cs.write_multiple_coils(x, val_cb(tx, Outcome::Range)).await,
+        Prepared::WriteMultipleRegisters(x) => cs.write_multiple_registers(x, val_cb(tx, Outcome::Range)).await,
+    }
+    await_callback(rx).await
+}
+
+async fn submit_ffi(channel: Channel, param: RequestParam, p: Prepared) -> Done {
+    let (tx, mut rx) = oneshot::channel::<CbResult>();
+    let mut f = FfiChannel::new(channel);
+    let accepted = match p {
+        Prepared::ReadCoils(r) => f.read_coils(param, r, bits_cb(tx)),
+        Prepared::ReadDiscreteInputs(r) => f.read_discrete_inputs(param, r, bits_cb(tx)),
+        Prepared::ReadHoldingRegisters(r) => f.read_holding_registers(param, r, regs_cb(tx)),
+        Prepared::ReadInputRegisters(r) => f.read_input_registers(param, r, regs_cb(tx)),
+        Prepared::WriteSingleCoil(x) => f.write_single_coil(param, x, val_cb(tx, Outcome::Coil)),
+        Prepared::WriteSingleRegister(x) => f.write_single_register(param, x, val_cb(tx, Outcome::Reg)),
+        Prepared::WriteMultipleCoils(x) => f.write_multiple_coils(param, x, val_cb(tx, Outcome::Range)),
+        Prepared::WriteMultipleRegisters(x) => f.write_multiple_registers(param, x, val_cb(tx, Outcome::Range)),
+    };
+    match accepted {
+        Ok(()) => await_callback(rx).await,
+        Err(e) => {
+            // was the callback told about it?
+            let mut got = None;
+            for _ in 0..50 {
+                match rx.try_recv() {
+                    Ok(r) => {
+                        got = Some(r);
+                        break;
+                    }
+                    // the closure was dropped uncalled
+                    Err(oneshot::error::TryRecvError::Closed) => break,
+                    Err(oneshot::error::TryRecvError::Empty) => tokio::task::yield_now().await,
+                }
+            }
+            Done::SyncErr(ffi_err(e), got)
         }
-    })
+    }
+}
+
+/// run the request as its own task, so that the caller can drive the wire concurrently and a panic on
+/// the caller side of the channel is reported through the JoinError (a panic inside a callback that
+/// the client task invokes ends the session task instead, see `Driver::after_case`)
+pub fn submit(channel: Channel, param: RequestParam, p: Prepared, style: Style) -> JoinHandle<Done> {
+    match style {
+        Style::Channel => tokio::spawn(async move { Done::Result(submit_channel(channel, param, p).await) }),
+        Style::Callback => tokio::spawn(submit_callback(channel, param, p)),
+        Style::Ffi => tokio::spawn(submit_ffi(channel, param, p)),
+    }
+}
+
+/// the successful outcome, or the result token of a request that did not succeed
+pub fn done_result(d: Done) -> Result<Outcome, String> {
+    match d {
+        Done::Result(Ok(o)) => Ok(o),
+        Done::Result(Err(e)) => Err(request_err(e)),
+        Done::SyncErr(name, cb) => {
+            let cb = match cb {
+                None => "-".to_string(),
+                Some(Ok(_)) => "OK?".to_string(),
+                Some(Err(e)) => request_err(e),
+            };
+            Err(format!("{name}/{cb}"))
+        }
+        Done::Lost => Err("LOST".to_string()),
+        Done::Hung => Err("HUNG".to_string()),
+    }
 }
 
 // ---------------------------------------------------------------------------------------------
